@@ -22,6 +22,17 @@ impl TraitFn {
         &self.entrait_sig.sig
     }
 
+    /// `cfg` attributes of the original function must guard the generated methods too,
+    /// or a disabled function leaves a dangling trait method behind.
+    pub fn with_cfg_attrs_of(mut self, fn_attrs: &[syn::Attribute]) -> Self {
+        self.attrs = fn_attrs
+            .iter()
+            .filter(|attr| attr.path().is_ident("cfg"))
+            .cloned()
+            .collect();
+        self
+    }
+
     pub fn opt_dot_await(&self, span: Span) -> Option<impl quote::ToTokens> {
         if self.originally_async {
             Some(TokenPair(syn::token::Dot(span), syn::token::Await(span)))
